@@ -372,6 +372,10 @@ def train_test(ck, prog):
                 return True
         return False
     if not is_ntest(nt):
+        # the size computed (and validated) by a private helper: `let n_test = check_split_arguments(.., n, test_size);`
+        from sa.prov import inline_calls
+        nt = inline_calls(prog, nt, allow=lambda p: p.startswith("model_selection::"))
+    if not is_ntest(nt):
         problems.append(f"n_test = `{render(nt)[:100]}` is not trunc((n as f32) * test_size)")
     if problems:
         ck.violation(rule, inst, b.path, site, expected="complementary slices of one index vector, split at n_test = trunc(f32(n)*test_size)",
